@@ -666,6 +666,23 @@ class Builtins:
             d.ghost["ident"] = self.cx.const("dictcomp_content", z3.IntSort())
             d.ghost["nonempty"] = self.cx.bool("dictcomp_nonempty").term
             d.ghost["comp_src"] = src
+            it = self.it
+
+            def view(short, src=src, g=g, e=e, fr=fr, it=it):
+                if not isinstance(src, SList):
+                    raise Unsupported("view of a dict built from a non-list")
+
+                def elem(j):
+                    saved = dict(fr.locals)
+                    it.assign(g.target, src.elem(j) if src.elem else it.cx.opaque("elem"), fr)
+                    k = it.ev(e.key, fr) if short in ("keys", "items") else None
+                    v = it.ev(e.value, fr) if short in ("values", "items") else None
+                    self._restore(fr, saved, g)
+                    return k if short == "keys" else v if short == "values" else (k, v)
+
+                return SList(None, length=src.length if not src.concrete else len(src.items), elem=elem, fresh=True, label="dictview")
+
+            d.ghost["view"] = view
             self.cx.assume_note("comprehension over an abstract pair sequence: the element expression is not executed (assumed not to raise)")
             return d
         d = {}
